@@ -190,6 +190,30 @@ def psi_tables(ctx):
     ctx.floor("psi_value_returns", 2, "value returns of readRespressureFromLines (upstream, experimental)")
 
 
+def refresh_keeps_nothing(ctx):
+    """'A new tick re-reads everything': after CgroupContext::refresh has emptied the per-tick cache nothing is written back into it
+    (shared with C03: kill preference marks set between two ticks take effect on the next one)."""
+    P, cg = ctx.prog, ctx.cg
+    rf = ctx.fn1("Oomd::CgroupContext::refresh")
+    from ..callgraph import node_writes
+    clear = [i for i, nn in enumerate(rf.nodes) if nn["k"] in ("bin", "call") and nn.get("op") == "=" and rf.pos_of(i) is not None and
+             rf.text(nn.get("l", nn.get("recv", -1))).replace("->", "").replace("this", "") in ("*data_",)]
+    fl = Flow(P, rf, events={c: [("set", "cleared")] for c in clear}, cg=cg)
+    late = []
+    for i, nn in enumerate(rf.nodes):
+        if rf.pos_of(i) is None or i in clear:
+            continue
+        if nn["k"] in ("bin", "call", "un") and any(t == "F:Oomd::CgroupContext::data_" or t.startswith("F:Oomd::CgroupContext::CgroupData::") for t in node_writes(rf, i)):
+            if fl.may(i, "cleared"):
+                late.append(i)
+        elif nn["k"] == "bin" and nn.get("op", "").endswith("=") and "data_" in rf.text(nn["l"]) and fl.may(i, "cleared"):
+            late.append(i)
+    ctx.check(len(clear) == 1 and not late, "refresh:nothing-survives-the-clear", "never_after", rf.loc(late[0]) if late else rf.loc(),
+              "after the cache is emptied refresh writes nothing back into it: every value is read again on the new tick",
+              "refresh writes '%s' into the per-tick cache after clearing it: that value is carried over from the previous tick and never re-read "
+              "(e.g. a kill preference mark set or removed between two ticks is ignored)" % (rf.text(late[0])[:70] if late else "no clear found"))
+
+
 def run(ctx):
     P, cg = ctx.prog, ctx.cg
     # ------------------------------------------------ cached accessors
@@ -233,6 +257,7 @@ def run(ctx):
                       "proxy() stores a value (or nullopt) into the slot on every path", "proxy() can return without storing into the slot")
     ctx.floor("proxy_instances", 5, "instantiations of proxy()")
 
+    refresh_keeps_nothing(ctx)
     effective_swap_scheme(ctx)
     io_cost_tables(ctx)
     psi_tables(ctx)
